@@ -535,19 +535,19 @@ Proof.
 Qed.
 
 (** []a] does not match "]" although the specification (POSIX, bash) says it does *)
-Theorem leading_bracket_refuted :
+Theorem leading_bracket_refuted : peg_leading_rbracket = false ->
   exists p s, k_lead_rbracket false p = true /\
               whole false true false (tr (parse false p)) s = false /\ spec_matches false false p s = true.
 Proof.
-  exists (s_of "[]a]"), (s_of "]"). repeat split; vm_compute; reflexivity.
+  intros H. vm_compute in H. first [discriminate H | exists (s_of "[]a]"), (s_of "]"); repeat split; vm_compute; reflexivity].
 Qed.
 
 (** [\a] does not match "a" *)
-Theorem escaped_alnum_refuted :
+Theorem escaped_alnum_refuted : peg_escaped_alnum_plain = false ->
   exists p s, k_esc_alnum false p = true /\
               whole false true false (tr (parse false p)) s = false /\ spec_matches false false p s = true.
 Proof.
-  exists [91; 92; 97; 93], (s_of "a"). repeat split; vm_compute; reflexivity.
+  intros H. vm_compute in H. first [discriminate H | exists [91; 92; 97; 93], (s_of "a"); repeat split; vm_compute; reflexivity].
 Qed.
 
 (** [+--] does not match "," *)
